@@ -323,7 +323,9 @@ func unitC06(e common.Env, p *common.Part) {
 				p.Count("duplicate_party_sessions", 1)
 			}
 			sig, what := c06oracle(c, cs, sc, res)
-			if sig == "session-failed" && res.Elapsed >= timeout {
+			if sig == "session-failed" && res.Elapsed >= timeout && res.QuietAtFirstReturn >= 2*time.Second && !cs.Dup {
+				what += fmt.Sprintf(" (the network had been empty and silent for %v when the deadline fired)", res.QuietAtFirstReturn.Round(100*time.Millisecond))
+			} else if sig == "session-failed" && res.Elapsed >= timeout {
 				// watchdog: replay once with a 5x deadline before judging
 				c.Stop()
 				c = newRCluster(cluster.Config{Map: cs.Map, Silent: cs.Mode == "silent", Barrier: cs.Mode == "barrier", Threshold: len(cs.Callers) - 1}, rng, pol)
